@@ -129,10 +129,30 @@ func statelessScript(seed int64, k int) []string {
 			add("Bits %v %d | %d %v %v", err, g.Rsv, u.Rsv, was, err2)
 		case 11:
 			// a control message answered through the handler helpers
+			// (either role; empty frames - the replies built from the package's precompiled frames - as often as not)
 			p := bytesOf(rng.Intn(126))
+			if rng.Intn(2) == 0 {
+				p = nil
+			}
+			op := ws.OpPing
+			if p == nil && rng.Intn(3) == 0 {
+				op = ws.OpClose
+			}
 			var w yieldW
-			err := wsutil.HandleClientControlMessage(&w, wsutil.Message{OpCode: ws.OpPing, Payload: p})
-			add("HandlePing %v %s", err, sum(w.b))
+			var err error
+			clientRole := rng.Intn(2) == 0
+			if clientRole {
+				err = wsutil.HandleServerControlMessage(&w, wsutil.Message{OpCode: op, Payload: p})
+			} else {
+				err = wsutil.HandleClientControlMessage(&w, wsutil.Message{OpCode: op, Payload: p})
+			}
+			// the reply is a frame its peer can parse, masked exactly when a client sent it
+			fs, consumed, bad := ref.ParseFrames(w.b)
+			ok := bad == "" && consumed == len(w.b) && len(fs) == 1 && fs[0].H.Masked == clientRole && len(fs[0].Payload) == len(p)
+			add("HandleControl client=%v op=%x %v parses=%v", clientRole, op, err, ok)
+			if !ok {
+				add("!! a reply no peer can parse: % x", w.b)
+			}
 		case 12:
 			var e wsflate.Extension
 			e.Parameters = wsflate.Parameters{ServerNoContextTakeover: rng.Intn(2) == 0, ClientMaxWindowBits: wsflate.WindowBits(8 + rng.Intn(8))}
@@ -210,6 +230,9 @@ func statelessScript(seed int64, k int) []string {
 // them at the same time (under the race detector, destinations and sources
 // yielding inside every call); each script's results must be those of the same
 // script run alone.
+// pristineShared: the package-level values as they are before this process has made a single library call.
+var pristineShared = sharedHash()
+
 func subStatelessStorm() mon.Sub {
 	alone := map[int64][]string{}
 	var mu sync.Mutex
@@ -263,6 +286,18 @@ func subStatelessStorm() mon.Sub {
 						}
 						c.Fail("storm/"+strings.SplitN(a[j], " ", 2)[0], fmt.Sprintf("call %d of a script gave a different result when %d scripts ran at once", j, g),
 							map[string]interface{}{"goroutines": g, "gomaxprocs": procs, "alone": a[j], "together": got, "script_seed": seeds[i]})
+						return
+					}
+				}
+			}
+			if now := sharedHash(); now != pristineShared {
+				c.Fail("storm/shared-state-changed", "after the scripts the package-level values every session shares (compiled frames, defaults) are not what they were when the process started", map[string]interface{}{"goroutines": g})
+				return
+			}
+			for i := range seeds {
+				for j, l := range together[i] {
+					if strings.HasPrefix(l, "!!") {
+						c.Fail("storm/unparsable-reply", fmt.Sprintf("call %d of a script: %s %s", j, together[i][j-1], l), map[string]interface{}{"goroutines": g, "script_seed": seeds[i]})
 						return
 					}
 				}
